@@ -232,48 +232,11 @@ def callee_name_(term):
 
 
 def full_product_fold(f, b, trait, method, sinks):
-    """Is the body `sink(map/any(cartesian_product(self.items.iter(), other.items.iter()), |(s,o)| s.<method>(o)))`?"""
-    t = Tracer(b)
-    src, chain = adaptor_chain(t, {'k': 'copy', 'l': 0, 'p': []})
-    names = [c[0] for c in chain]
-    if not names or names[0] not in sinks:
-        return False, 'the result is not produced by %s over an iterator chain: %s' % ('/'.join(sinks), names)
-    allowed = set(sinks) | {'map', 'cartesian_product', 'into_iter', 'iter', 'deref'}
-    bad = [x for x in names if x not in allowed]
-    if bad:
-        return False, 'the component pairs pass through adaptor(s) %s that can drop, truncate or pair up elements' % bad
-    if 'cartesian_product' not in names:
-        return False, 'components are not combined by a full cartesian product: %s' % names
-    cp = [c for c in chain if c[0] == 'cartesian_product'][0][1]
-    roots = []
-    for a in cp['args'][:2]:
-        r = _items_source(f, t, a, 0)
-        if isinstance(r, str):
-            return False, r
-        roots.append(r)
-    if sorted(r[0] for r in roots) != [1, 2] or any(r[1] != ['items'] for r in roots):
-        return False, 'the product is not self.items x other.items: %s' % roots
-    # the closure applies the leaf method to its own pair
-    clos = None
-    for nm, tt, bi in chain:
-        if nm in ('map',) or nm in sinks:
-            if len(tt['args']) > 1:
-                co = t.origin(tt['args'][1])
-                if co['o'] == 'rvalue' and co['rv'].get('agg') == 'closure':
-                    clos = f.body(co['rv']['closure'])
-    if clos is None:
-        return False, 'no mapping closure found'
-    tc = Tracer(clos)
-    calls = [x for x in clos.calls()]
-    leaf = [x for x in calls if is_trait_call(x[1], trait, method)]
-    if len(leaf) != 1 or len(calls) != 1 or leaf[0][1]['dest']['l'] != 0:
-        return False, 'the closure does not simply return %s::%s of its pair' % (trait, method)
-    a0 = tc.origin(leaf[0][1]['args'][0])
-    a1 = tc.origin(leaf[0][1]['args'][1])
-    fp0, fp1 = field_path(a0.get('p', [])), field_path(a1.get('p', []))
-    if not (a0['o'] == 'arg' and a1['o'] == 'arg' and a0['l'] == a1['l'] and fp0 == ['0'] and fp1 == ['1']):
-        return False, 'the closure does not apply the leaf to (pair.0, pair.1): %s %s' % (fp0, fp1)
-    return True, '%s(%s) over self.items x other.items with |(s,o)| s.%s(o)' % (names[0], ' <- '.join(names[1:]), method)
+    """Does the body reduce (any / sum) `s.<method>(o)` over the full product self.items x other.items?  Decided on the
+    nest form (pk/nest.py), so for-loops, iproduct!, flat_map, .any/.fold/.sum and extracted helpers are one shape."""
+    from ..nest import full_product_reduction
+    kind = 'any' if 'any' in sinks else 'sum'
+    return full_product_reduction(f, b, lambda t: is_trait_call(t, trait, method), kind, {(1, ('items',)), (2, ('items',))})
 
 
 def _ops(ctx):
